@@ -31,6 +31,7 @@ int Gen::addDomain(bool rel, int maxK, long maxStates)
 {
     if (!maxK) maxK = rel ? 3 : 5;
     if (!maxStates) maxStates = rel ? (tier ? 100 : 48) : (tier ? 6000 : 768);
+    if (getenv("MVH_TINY")) { maxK = 3; maxStates = 12; }      // development aid: tiny domains
     int K = R.range(1, maxK);
     std::vector<int> sz;
     for (int i = 0; i < K; i++) {
